@@ -1,7 +1,10 @@
 (* C19  Concurrent loading and processing is race-free (at the level of the protocol) and terminates.
    Theorem statements only.  Models: Model/Pipe.v (cpr.Seq under conc's context pool with
    WithCancelOnError/WithFirstError), Model/PipeLoader.v (ParseFileRecursively -> FromStream ->
-   FromModelStream).  Vocabulary: Spec/PipeSpec.v.  Proofs: Proofs/Pipe*.v.
+   FromModelStream), Model/PipeFromPath.v (FromPath's three stages on an include tree),
+   Model/PipeFromPathCycle.v (the same on an arbitrary include graph: parser tasks with ancestor
+   chains).  Vocabulary: Spec/PipeSpec.v, Spec/IncludeGraph.v.  Proofs: Proofs/Pipe*.v,
+   Proofs/IncludeGraphProofs.v.
    Every theorem holds for every number of stages n, number of items m, failure oracle [fails]
    and schedule (list of labels; disabled labels are skipped) - no bound anywhere.
    Not covered by proof (DESIGN.md section 7, C19): data races on Go memory (searched by the race
@@ -250,8 +253,10 @@ Proof.
 Qed.
 Print Assumptions C19_load_multiset.
 
-(* A file that includes itself: for every k there is a schedule with k effective steps (k parser
-   tasks spawned) - the loader does not terminate on a cyclic include graph (DESIGN.md F12). *)
+(* A file that includes itself, in the loader model WITHOUT the ancestor chain (the code as pinned,
+   DESIGN.md F12): for every k there is a schedule with k effective steps (k parser tasks spawned) -
+   that loader does not terminate on a cyclic include graph.  The code as it is carries the chain:
+   C19_frompath_cycle_terminates / C19_frompath_cycle_is_error below. *)
 Theorem C19_loader_cycle_unbounded : forall k,
   leffective (fun f => [f]) (fun _ => false) (fun _ => false) (map LSpawn (seq 0 k))
              (linit (fun f => [f]) 0) = k.
